@@ -7,6 +7,7 @@ from pydiverse.common import (
     Date,
     Datetime,
     Float,
+    Int,
     String,
 )
 from pydiverse.transform._internal.backend.sql import SqlImpl
@@ -199,6 +200,17 @@ with SqliteImpl.impl_store.impl_manager as impl:
     def _cbrt(x):
         pow_impl = SqliteImpl.get_impl(ops.pow, (Float(), Float()))
         return sqa.func.sign(x) * pow_impl(sqa.func.abs(x), sqa.literal(1 / 3, type_=sqa.Double))
+
+    @impl(ops.truediv, Int(), Int())
+    @impl(ops.truediv, Float(), Float())
+    def _truediv(x, y):
+        # SQLAlchemy types `int / int` as NUMERIC, whose values come back as Decimal
+        # rounded to 10 digits (1 / 10**11 would be exported as 0).
+        if not isinstance(x.type, sqa.Float):
+            x = sqa.cast(x, sqa.Double)
+        if not isinstance(y.type, sqa.Float):
+            y = sqa.cast(y, sqa.Double)
+        return x / y
 
     @impl(ops.dt_day_of_week)
     def _day_of_week(x):
